@@ -159,6 +159,50 @@ def rand_product(rng, n, k, paulis="XYZ"):
     return ("M", rand_num(rng), f)
 
 
+def rand_pow_base(rng, n):
+    """a product (or a sum of products, or a product with a sum) whose factors ANTICOMMUTE on one qubit"""
+    q = rng.randrange(n)
+    a, b = rng.sample("XYZ", 2)
+    style = rng.random()
+    prod = ("M", ("S", a, q), ("S", b, q))
+    if style < 0.35:
+        base = prod
+    elif style < 0.55:      # scalar (often imaginary) times the product: (1j*X0*Y0)
+        base = ("M", rng.choice([("N", 0, 1), ("N", 0, -1), ("N", 2, 0), ("N", 1, 1)]), prod)
+    elif style < 0.75:      # (X0 + Z0) * Y0
+        c = rng.choice([x for x in "XYZ" if x != a])
+        base = ("M", ("A", ("S", a, q), ("S", c, q)), ("S", b, q)) if rng.random() < 0.5 else ("M", ("S", b, q), ("A", ("S", a, q), ("S", c, q)))
+    elif style < 0.9:       # sum of products
+        q2 = rng.randrange(n)
+        c, d = rng.sample("XYZ", 2)
+        base = ("A", prod, ("M", ("S", c, q2), ("S", d, q2)))
+    else:                   # three factors, two qubits
+        base = ("M", prod, ("S", rng.choice("XYZ"), rng.randrange(n)))
+    return base
+
+
+def rand_pow_form(rng, n):
+    """integer powers of such bases, nested inside sums and scalar multiples"""
+    f = ("P", rand_pow_base(rng, n), rng.choice([2, 2, 3, 3, 4, 5]))
+    r = rng.random()
+    if r < 0.3:
+        f = ("M", rand_num(rng, 0.4), f)
+    elif r < 0.5:
+        f = ("M", f, ("S", rng.choice("XYZ"), rng.randrange(n)))
+    if rng.random() < 0.6:
+        other = rand_num(rng, 0.0) if rng.random() < 0.3 else rand_tfim_like(rng, n) if n > 1 else ("S", rng.choice("XYZ"), 0)
+        f = ("A", f, other) if rng.random() < 0.5 else ("A", other, f)
+    if rng.random() < 0.25:
+        f = ("A", f, ("M", rand_num(rng, 0.3), ("P", rand_pow_base(rng, n), rng.choice([2, 3]))))
+    return f
+
+
+def sympy_pow_over_products(expr):
+    """number of Pow nodes of the sympy tree whose base is a Mul or an Add (they must survive sympy's canonicalisation)"""
+    import sympy
+    return sum(1 for e in sympy.preorder_traversal(expr) if isinstance(e, sympy.Pow) and isinstance(e.base, (sympy.Mul, sympy.Add)))
+
+
 def rand_tfim_like(rng, n):
     """at most one factor per qubit per term (what the unit tests use)"""
     terms = []
@@ -316,6 +360,9 @@ def check_symbolic(run, B, tag, ast, n, rng, expr=None, deep=True):
         its, const = impl_terms_coq(h)
         multi = has_same_qubit_factors(h)
         desc["sympy_form"] = str(h.form)
+        npow = sympy_pow_over_products(h.form)
+        if npow:
+            run.notes["pow_over_product_or_sum_bases"] = run.notes.get("pow_over_product_or_sum_bases", 0) + 1
         desc["same_qubit_factors"] = multi
         run.case(["symbolic", desc["form"], n], nontrivial=(len(h.terms) > 0))
         run.sample({"kind": "symbolic form", **desc, "terms": [(str(t.coefficient), [f.name for f in t.factors]) for t in h.terms][:6]})
@@ -369,6 +416,8 @@ def check_symbolic(run, B, tag, ast, n, rng, expr=None, deep=True):
         # dense route
         B.add(f"{tag}:dense_apply", f"meqb (apply_spec {n}%nat {A} {P}) {ccol(dpsi)} && meqb (apply_spec {n}%nat {A} {R}) {cmat(drho)}", {**rp, "what": "h.dense @ psi / rho"})
         B.add(f"{tag}:dense_expect", f"({zint(evD)} =? dense_expect_state (denote {n}%nat {A}) {P}) && ({zint(evdD)} =? dense_expect_dm (denote {n}%nat {A}) {R})", {**rp, "what": "h.dense.expectation"})
+        B.add(f"{tag}:dense_add", f"meqb (madd ZK (denote {n}%nat {A}) (denote {n}%nat {A})) {cmat((hd + hd).matrix)} && meqb (denote {n}%nat (s_add {A} {A})) {cmat((h + h).matrix)}",
+              {**rp, "what": "(H + H).matrix, dense and symbolic"})
         if evn is not None:
             # normalize=True: correctly rounded quotient of two exact integers
             num = round(float(evD))
@@ -394,6 +443,15 @@ def gen_forms(run, rng):
     forms.append((2, ("P", ("A", ("S", "X", 0), ("S", "Z", 1)), 3)))
     forms.append((3, ("A", ("M", ("S", "X", 2), ("M", ("S", "Y", 0), ("S", "X", 2))), ("N", 2, 0))))
     forms.append((2, ("M", ("S", "I", 1), ("P", ("S", "Y", 0), 3))))
+    # powers of bases with anticommuting factors on one qubit
+    forms.append((1, ("P", ("M", ("S", "X", 0), ("S", "Z", 0)), 2)))                                  # (X0*Z0)**2 = -1
+    forms.append((1, ("P", ("M", ("N", 0, 1), ("M", ("S", "X", 0), ("S", "Y", 0))), 3)))               # (1j*X0*Y0)**3
+    forms.append((1, ("P", ("M", ("A", ("S", "X", 0), ("S", "Z", 0)), ("S", "Y", 0)), 2)))             # ((X0+Z0)*Y0)**2
+    forms.append((2, ("A", ("M", ("N", 3, 0), ("P", ("M", ("S", "X", 1), ("S", "Z", 1)), 2)), ("M", ("S", "Z", 0), ("S", "Z", 1)))))
+    forms.append((2, ("P", ("A", ("M", ("S", "X", 0), ("S", "Y", 0)), ("M", ("S", "Z", 1), ("S", "X", 1))), 3)))
+    for _ in range(40 if quick else 400):
+        n = rng.choice([1, 2, 2, 3])
+        forms.append((n, rand_pow_form(rng, n)))
     for _ in range(40 if quick else 400):
         n = rng.choice([1, 2, 2, 3, 3, 3] + ([] if quick else [4]))
         forms.append((n, rand_form(rng, n, rng.choice([2, 3, 3, 4]))))
@@ -415,6 +473,9 @@ def run_forms(run, rng):
             hs.append((n, ast, h))
     res = B.flush()
     judge(run, B, res)
+    need = 30 if run.tier == "quick" else 300
+    if run.notes.get("pow_over_product_or_sum_bases", 0) < need:
+        run.find("generator:pow_over_products", f"fewer than {need} forms kept a Pow node over a Mul/Add base after sympy's canonicalisation", {}, concrete=False)
     return hs
 
 
